@@ -234,6 +234,13 @@ fn shapes_int(d: &mut Drv) {
     d.call("disk_contains", || json!({"ty": "Sphere<f32>", "c": c, "r": r, "p": p}), || json!(sp.contains_point(g(&p)) as i64));
     d.call("disk_collides", || json!({"ty": "Disk<f64>", "c": &c[..2], "r": r, "c2": &c2[..2], "r2": r2}), || json!(dk.collides_with_disk(dk2) as i64));
     d.call("disk_collides", || json!({"ty": "Sphere<f32>", "c": c, "r": r, "c2": c2, "r2": r2}), || json!(sp.collides_with_sphere(sp2) as i64));
+    // point shapes: radius exactly 0 contains exactly its own centre (distance 0 <= 0), and nothing else
+    { let (dp, sp0) = (Disk::<f64, f64>::point(f(&c)), Sphere::<f32, f32>::point(g(&c)));
+      d.call("disk_contains", || json!({"ty": "Disk<f64>", "c": &c[..2], "r": 0, "p": &c[..2]}), || json!(dp.contains_point(f(&c)) as i64));
+      d.call("disk_contains", || json!({"ty": "Sphere<f32>", "c": c, "r": 0, "p": c}), || json!(sp0.contains_point(g(&c)) as i64));
+      d.call("disk_contains", || json!({"ty": "Disk<f64>", "c": &c[..2], "r": 0, "p": &p[..2]}), || json!(Disk::new(f(&c), 0f64).contains_point(f(&p)) as i64));
+      d.call("disk_contains", || json!({"ty": "Disk<f64>", "c": &c[..2], "r": r, "p": &c[..2]}), || json!(dk.contains_point(f(&c)) as i64));
+      d.call("disk_collides", || json!({"ty": "Disk<f64>", "c": &c[..2], "r": 0, "c2": &c[..2], "r2": 0}), || json!(dp.collides_with_disk(dp) as i64)); }
     { let (dn, sn) = (Disk::new(f(&c), rneg as f64), Sphere::new(g(&c), rneg as f32));
       d.call("disk_contains", || json!({"ty": "Disk<f64>", "c": &c[..2], "r": rneg, "p": &p[..2]}), || json!(dn.contains_point(f(&p)) as i64));
       d.call("disk_collides", || json!({"ty": "Disk<f64>", "c": &c[..2], "r": rneg, "c2": &c2[..2], "r2": r2}), || json!(dn.collides_with_disk(dk2) as i64));
